@@ -31,6 +31,7 @@ type Options struct {
 
 var dumpFn string
 var sweepAll bool
+var transformKind string
 
 func uniq(in []string) []string {
 	m := map[string]bool{}
@@ -73,6 +74,7 @@ func main() {
 	flag.StringVar(&dumpFn, "dumpfn", "", "debug: print the SSA of module functions whose name contains this string")
 	mut := flag.Bool("mutants", false, "run only the overlay corpus of -prop (developer loop)")
 	flag.BoolVar(&sweepAll, "sweep", false, "developer: run every property on the (renamed) program, print what is not clean")
+	flag.StringVar(&transformKind, "transform", "", "self-test: check the property on a behaviour-preserving rewrite of the whole module (invertif|reversefuncs|both)")
 	listNames := flag.String("listnames", "", "developer: list unexported names of packages whose path contains one of the comma-separated fragments")
 	flag.Parse()
 	if *listNames != "" {
@@ -168,6 +170,19 @@ func run(o *Options, f propFn) (code int) {
 		for k, v := range ro {
 			overlay[k] = v
 		}
+		lockCache = map[*ssa.Function]*LockInfo{}
+		w, err = Load(o.Repo, false, overlay)
+	}
+	if err == nil && transformKind != "" {
+		to, terr := transformOverlays(w, transformKind)
+		if terr != nil {
+			fmt.Println(terr)
+			return 2
+		}
+		for k, v := range to {
+			overlay[k] = v
+		}
+		fmt.Printf("transform %s: %d files rewritten\n", transformKind, len(to))
 		lockCache = map[*ssa.Function]*LockInfo{}
 		w, err = Load(o.Repo, false, overlay)
 	}
